@@ -48,6 +48,7 @@ Definition OP_EXECUTE : N := 24.
 Definition E_INVALID_HANDLE : N := 1.
 Definition E_READ_NOT_PERMITTED : N := 2.
 Definition E_WRITE_NOT_PERMITTED : N := 3.
+Definition E_INVALID_PDU : N := 4.
 Definition E_INVALID_OFFSET : N := 7.
 Definition E_ATTR_NOT_FOUND : N := 10.
 Definition E_INVALID_ATTR_VALUE_LENGTH : N := 13.
@@ -86,7 +87,7 @@ Record server := {
   wq : list (N * list (nat * bytes));   (* GattServer.__write_queues, insertion ordered *)
   s_cmtu : nat;                         (* server's att.client_att_mtu *)
   s_smtu : nat;                         (* server's att.server_att_mtu *)
-  crashed : bool                        (* a handler raised: tx lock never released *)
+  crashed : bool                        (* a handler raised (no PDU sent for that request; txlock releases the lock) *)
 }.
 
 Definition set_db (s : server) (d : db) : server :=
@@ -129,41 +130,38 @@ Definition srv_read (s : server) (h : N) : server * option rsp :=
   | Some (ADesc _ v) => (s, Some (RRead (firstn (mtu - 1) v)))
   end.
 
-(** what [attr.value] evaluates to in [on_read_blob_request] (Characteristic.value is the
-    value of its CharacteristicValue) *)
-Definition attr_value (d : db) (a : attr) : option bytes :=
+(** what [on_read_blob_request] measures and slices: the value of a characteristic value or
+    descriptor, the payload of a service or characteristic declaration *)
+Definition blob_value (a : attr) : bytes :=
   match a with
-  | APrimary u _ => Some u
-  | ADecl _ vh _ => match lookup d vh with Some (AValue _ v) => Some v | _ => None end
-  | AValue _ v => Some v
-  | ACccd v => Some v
-  | ADesc _ v => Some v
+  | APrimary u _ => u
+  | ADecl p vh u => decl_payload p vh u
+  | AValue _ v => v
+  | ACccd v => v
+  | ADesc _ v => v
   end.
 
-(** [on_read_blob_request] *)
+(** [on_read_blob_request]: read access of a characteristic value is checked before its
+    length is looked at; every kind of attribute is answered *)
 Definition srv_blob (s : server) (h : N) (off : nat) : server * option rsp :=
   if N.eqb h 0 then (s, Some (RErr OP_READ_BLOB h E_INVALID_HANDLE)) else
   let mtu := s_cmtu s in
   match lookup (sdb s) h with
   | None => (s, Some (RErr OP_READ_BLOB h E_ATTR_NOT_FOUND))
   | Some a =>
-      match attr_value (sdb s) a with
-      | None => (crash s, None)
-      | Some av =>
-          if off <? length av then
-            match a with
-            | AValue _ v =>
-                match owner_props (sdb s) h with
-                | None => (crash s, None)
-                | Some p => if readable p then (s, Some (RBlob (slice off (off + mtu - 1) v)))
-                            else (s, Some (RErr OP_READ_BLOB h E_READ_NOT_PERMITTED))
-                end
-            | ACccd v => (s, Some (RBlob (slice off (off + mtu - 1) v)))
-            | ADesc _ v => (s, Some (RBlob (slice off (off + mtu - 1) v)))
-            | _ => (s, None)
-            end
-          else if off =? length av then (s, Some (RBlob []))
-          else (s, Some (RErr OP_READ_BLOB h E_INVALID_OFFSET))
+      let answer :=
+        let av := blob_value a in
+        if off <? length av then (s, Some (RBlob (slice off (off + mtu - 1) av)))
+        else if off =? length av then (s, Some (RBlob []))
+        else (s, Some (RErr OP_READ_BLOB h E_INVALID_OFFSET)) in
+      match a with
+      | AValue _ _ =>
+          match owner_props (sdb s) h with
+          | None => (crash s, None)
+          | Some p => if readable p then answer
+                      else (s, Some (RErr OP_READ_BLOB h E_READ_NOT_PERMITTED))
+          end
+      | _ => answer
       end
   end.
 
@@ -181,7 +179,7 @@ Definition srv_write (s : server) (h : N) (v : bytes) : server * option rsp :=
   | Some (ACccd old) =>
       if length v <=? 2 then (set_db s (update (sdb s) h (ACccd (v ++ skipn (length v) old))), Some RWrite)
       else (s, Some (RErr OP_WRITE h E_INVALID_ATTR_VALUE_LENGTH))
-  | Some _ => (s, None)
+  | Some _ => (s, Some (RErr OP_WRITE h E_WRITE_NOT_PERMITTED))
   end.
 
 (** [on_write_command]: never answers on success, but DOES send Error Responses *)
@@ -235,32 +233,41 @@ Fixpoint apply_writes (cur : bytes) (ws : list (nat * bytes)) : bytes * bool :=
       end
   end.
 
-Inductive exec_result := ExDone | ExBadOffset (h : N) | ExRaised.
+Inductive exec_result := ExDone | ExBadOffset (h : N) | ExDenied (h : N) | ExBadHandle (h : N) | ExRaised.
 
 Fixpoint exec_queues (d : db) (q : list (N * list (nat * bytes))) : db * exec_result :=
   match q with
   | [] => (d, ExDone)
   | (h, ws) :: r =>
       match lookup d h with
-      | None => (d, ExRaised)       (* except IndexError: ... request.handle -> AttributeError *)
+      | None => (d, ExBadHandle h)    (* except IndexError: queues cleared, INVALID_HANDLE *)
       | Some (AValue u cur) =>
-          let '(cur', ok) := apply_writes cur ws in
-          let d' := update d h (AValue u cur') in
-          if ok then exec_queues d' r else (d', ExBadOffset h)
+          (* queued writes need the same access rights as a Write Request *)
+          match owner_props d h with
+          | None => (d, ExRaised)
+          | Some p =>
+              if writeable p then
+                let '(cur', ok) := apply_writes cur ws in
+                let d' := update d h (AValue u cur') in
+                if ok then exec_queues d' r else (d', ExBadOffset h)
+              else (d, ExDenied h)
+          end
       | Some _ => exec_queues d r   (* only characteristic values are supported: pass *)
       end
   end.
 
-(** [on_execute_write_request] (repaired: queues cleared after a successful execute) *)
+(** [on_execute_write_request] *)
 Definition srv_execute (s : server) (flags : N) : server * option rsp :=
   if N.eqb flags 0 then (set_wq s [], Some RExec)
   else if N.eqb flags 1 then
     match exec_queues (sdb s) (wq s) with
     | (d, ExDone) => (set_wq (set_db s d) [], Some RExec)
     | (d, ExBadOffset h) => (set_wq (set_db s d) [], Some (RErr OP_EXECUTE h E_INVALID_OFFSET))
-    | (d, ExRaised) => (crash (set_wq (set_db s d) []), None)
+    | (d, ExDenied h) => (set_wq (set_db s d) [], Some (RErr OP_EXECUTE h E_WRITE_NOT_PERMITTED))
+    | (d, ExBadHandle h) => (set_wq (set_db s d) [], Some (RErr OP_EXECUTE h E_INVALID_HANDLE))
+    | (d, ExRaised) => (crash (set_db s d), None)
     end
-  else (s, None).
+  else (s, Some (RErr OP_EXECUTE 0 E_INVALID_PDU)).
 
 (** [on_exch_mtu_request] with ATTLayer.set_client_mtu / set_server_mtu (ignored below 23) *)
 Definition srv_mtu (s : server) (m : nat) : server * option rsp :=
@@ -363,10 +370,9 @@ Definition srv_info (s : server) (st e : N) : server * option rsp :=
       (s, Some (RInfo (map (fun y => (fst y, type_uuid (snd y))) sel)))
   end.
 
-(** the handlers are decorated with [txlock]: once one of them raised, the server never
-    handles another PDU *)
+(** the handlers are decorated with [txlock], which releases the lock also when the handler
+    raises: the next PDU is handled normally *)
 Definition server_step (s : server) (q : req) : server * option rsp :=
-  if crashed s then (s, None) else
   match q with
   | QRead h => srv_read s h
   | QBlob h off => srv_blob s h off
